@@ -48,7 +48,7 @@ def part_ngram(ctx):
     rng = random.Random(ctx.seed)
     cfgs = count_cfg.ngram_cfgs(ctx.seed + 1, ctx.pick(16, 40))
     items = emit(ctx, "Ngram", cfgs, count_cfg.tla_ngram,
-                 dict(V=2, MaxLen=ctx.pick(3, 4), MaxDocs=2, TMaxLen=ctx.pick(3, 4), TMaxDocs=1),
+                 dict(V=2, MaxLen=ctx.pick(3, 4), MaxDocs=2, TMaxLen=3, TMaxDocs=1),
                  ["TransformOfTrainIsTrain", "RowTotals", "PreLen", "MergeLemma"], "Ngram exhaustive V=2")
     if len(items) < 500:
         raise MachineryError("Ngram emitted too few instances")
@@ -75,7 +75,7 @@ def part_skipgram(ctx):
              dict(kernel="flat", r=1, mask=False, tok=T(excluded=(0,))), dict(kernel="flat", r=2, mask=False, tok=T(maxUnique=1)),
              dict(kernel="harmonic", r=3, mask=False, tok=T(minDocOcc=2))]
     items = emit(ctx, "Skipgram", cfgs, count_cfg.tla_ngram,
-                 dict(V=ctx.pick(2, 3), MaxLen=ctx.pick(3, 3), MaxDocs=2, TMaxLen=ctx.pick(2, 3), TMaxDocs=ctx.pick(2, 2)),
+                 dict(V=ctx.pick(2, 3), MaxLen=3, MaxDocs=2, TMaxLen=2, TMaxDocs=ctx.pick(2, 1)),
                  ["RowTotals"], "Skipgram exhaustive")
     if ctx.quick and len(items) > ctx.n(20000):
         ctx.exhaustive = False
